@@ -840,6 +840,20 @@ func (c *Ctx) unguardedOptionalUse(ld *ssa.UnOp, par ssa.Value, k int64) (string
 		}
 		in := r.(ssa.Instruction)
 		if !nonNilInputAtoms(guardsOf(in.Block()), par, k) {
+			// handed to a library helper that tests the value for nil itself before using it
+			if call, ok := in.(*ssa.Call); ok && !call.Common().IsInvoke() {
+				if f := call.Common().StaticCallee(); f != nil && isLibFn(f) && f.Blocks != nil {
+					safe := true
+					for i, a := range call.Common().Args {
+						if a == ssa.Value(ld) && (i >= len(f.Params) || !c.paramNilSafe(f, i, 0)) {
+							safe = false
+						}
+					}
+					if safe {
+						continue
+					}
+				}
+			}
 			return "used without a dominating `!= nil` test (nil dereference when the input is omitted)", in.Pos()
 		}
 	}
@@ -1187,4 +1201,50 @@ func (c *Ctx) checkPadder(f *ssa.Function) {
 		}
 	}
 	c.decide(okLoop && appendsOnlyNil(f), "R6", "R6:T7:padder", site, "appends nil while len < length; supplied tensors keep their positions", "padding stage does not append nil up to the requested length")
+}
+
+// paramNilSafe: every use of parameter i of f other than a nil test lies on the non-nil edge of a test of that
+// parameter (or hands it to a helper for which the same holds).
+func (c *Ctx) paramNilSafe(f *ssa.Function, i int, depth int) bool {
+	if depth > 2 || i >= len(f.Params) {
+		return false
+	}
+	par := f.Params[i]
+	for _, r := range *par.Referrers() {
+		switch u := r.(type) {
+		case *ssa.DebugRef:
+			continue
+		case *ssa.BinOp:
+			if (u.Op == token.EQL || u.Op == token.NEQ) && (isNilConst(u.X) || isNilConst(u.Y)) {
+				continue
+			}
+		}
+		in := r.(ssa.Instruction)
+		guarded := false
+		for _, g := range guardsOf(in.Block()) {
+			for _, a := range atomsOf(g) {
+				if a.op == token.NEQ && ((a.x == ssa.Value(par) && isNilConst(a.y)) || (a.y == ssa.Value(par) && isNilConst(a.x))) {
+					guarded = true
+				}
+			}
+		}
+		if guarded {
+			continue
+		}
+		if call, ok := in.(*ssa.Call); ok && !call.Common().IsInvoke() {
+			if g := call.Common().StaticCallee(); g != nil && isLibFn(g) && g.Blocks != nil {
+				safe := true
+				for j, a := range call.Common().Args {
+					if a == ssa.Value(par) && !c.paramNilSafe(g, j, depth+1) {
+						safe = false
+					}
+				}
+				if safe {
+					continue
+				}
+			}
+		}
+		return false
+	}
+	return true
 }
